@@ -234,14 +234,11 @@ def run(tier, rep):
         for pb in g["problems"]:
             rep.violation("growth:%s:%d" % ("hybrid" if pb["hybrid"] else "plain", pb["boundary"]), "particle array wrong after removals / additions around N == N_allocated == %d: %s" % (pb["boundary"], pb), pb)
     if not quick:
-        asan_rt0 = os.popen("clang -print-file-name=libclang_rt.asan-x86_64.so").read().strip()
         common.build("asan")
-        r = common.run_worker(os.path.join(HERE, "w_c14.py"), ["growth", go], variant="asan", env={"LD_PRELOAD": asan_rt0, "ASAN_OPTIONS": "detect_leaks=0"}, timeout=1800)
+        r = common.run_worker(os.path.join(HERE, "w_c14.py"), ["growth", go], variant="asan", env=common.asan_env(), timeout=1800)
         if r.returncode != 0 and ("AddressSanitizer" in r.stderr or "runtime error" in r.stderr):
-            m = re.search(r"(ERROR: AddressSanitizer[^\n]*)", r.stderr)
-            w = re.search(r"#0 0x[0-9a-f]+ in (\w+) ([^\s]+)", r.stderr)
-            rep.violation("asan:growth", "sanitizer report at a storage-growth boundary (N == N_allocated): %s in %s" % (m.group(1)[:120] if m else "?", (w.group(1) + " " + w.group(2)) if w else "?"),
-                          {"stderr": r.stderr[-3000:]})
+            head, where = common.asan_where(r.stderr)
+            rep.violation("asan:growth", "sanitizer report at a storage-growth boundary (N == N_allocated): %s in %s" % (head, where), {"stderr": r.stderr[-3000:]})
         elif r.returncode != 0:
             rep.cov["asan_growth"] = "not run: %s" % r.stderr[-200:]
         else:
@@ -251,11 +248,11 @@ def run(tier, rep):
         cfg = {"TreeMode": False, "Hybrid": False, "MaxN": 300, "NHashes": 7}
         d = common.build("asan")
         out = os.path.join(sc, "asan.ndjson")
-        asan_rt = os.popen("clang -print-file-name=libclang_rt.asan-x86_64.so").read().strip()
         r = common.run_worker(os.path.join(HERE, "w_c14.py"), ["random", json.dumps(cfg), out, str(common.seed() + 7), "6", "800", "c"],
-                              variant="asan", env={"LD_PRELOAD": asan_rt, "ASAN_OPTIONS": "detect_leaks=0"}, timeout=1800)
+                              variant="asan", env=common.asan_env(), timeout=1800)
         if r.returncode != 0 and ("AddressSanitizer" in r.stderr or "runtime error" in r.stderr):
-            rep.violation("asan", "sanitizer report while executing a random history", {"stderr": r.stderr[-3000:]})
+            head, where = common.asan_where(r.stderr)
+            rep.violation("asan", "sanitizer report while executing a random history: %s in %s" % (head, where), {"stderr": r.stderr[-3000:]})
         elif r.returncode != 0:
             rep.cov["asan"] = "not run: %s" % r.stderr[-200:]
         else:
